@@ -106,6 +106,77 @@ func HashIndexes(indexes []execution.ParallelIndex) (map[int]string, map[string]
 	return hashes, hashesIdx, nil
 }
 
+// FindHashCollision returns two indexes of the ParallelismSpec that hash to the
+// same value, if any. Such indexes would share the same task name and status
+// slot, so a spec containing them cannot be executed correctly. Indexes are
+// enumerated lazily in the same order as GenerateIndexes, and enumeration stops
+// at the first collision, so the cost is bounded by the size of the hash space.
+func FindHashCollision(spec *execution.ParallelismSpec) (first, second *execution.ParallelIndex, hash string, err error) {
+	if spec == nil {
+		return nil, nil, "", nil
+	}
+
+	seen := make(map[string]execution.ParallelIndex)
+	check := func(index execution.ParallelIndex) (bool, error) {
+		h, err := HashIndex(index)
+		if err != nil {
+			return false, err
+		}
+		if prev, ok := seen[h]; ok {
+			first, second, hash = &prev, &index, h
+			return true, nil
+		}
+		seen[h] = index
+		return false, nil
+	}
+
+	switch {
+	case spec.WithCount != nil:
+		for i := int64(0); i < *spec.WithCount; i++ {
+			if found, err := check(execution.ParallelIndex{IndexNumber: pointer.Int64(i)}); found || err != nil {
+				return first, second, hash, err
+			}
+		}
+
+	case len(spec.WithKeys) > 0:
+		for _, key := range spec.WithKeys {
+			if found, err := check(execution.ParallelIndex{IndexKey: key}); found || err != nil {
+				return first, second, hash, err
+			}
+		}
+
+	case len(spec.WithMatrix) > 0:
+		keys := matrix.GetKeys(spec.WithMatrix)
+		for _, key := range keys {
+			if len(spec.WithMatrix[key]) == 0 {
+				return nil, nil, "", nil
+			}
+		}
+		indexes := make([]int, len(keys))
+		for {
+			combination := matrix.IndexMatrix(spec.WithMatrix, keys, indexes)
+			if found, err := check(execution.ParallelIndex{MatrixValues: combination}); found || err != nil {
+				return first, second, hash, err
+			}
+
+			// Advance to the next combination, the last key varies fastest.
+			j := len(indexes) - 1
+			for ; j >= 0; j-- {
+				indexes[j]++
+				if indexes[j] < len(spec.WithMatrix[keys[j]]) {
+					break
+				}
+				indexes[j] = 0
+			}
+			if j < 0 {
+				break
+			}
+		}
+	}
+
+	return nil, nil, "", nil
+}
+
 // IndexCreationRequest contains an index that should be created, and the earliest time it can be created.
 type IndexCreationRequest struct {
 	ParallelIndex execution.ParallelIndex
